@@ -138,7 +138,8 @@ class C15(Prop):
     level_note = ("Not proved: that Coq's primitive floats satisfy the order hypotheses (would need FloatAxioms). The while loop that finds a new "
                   "bucket's begin is modelled by its closed form. DDSketch is abstract: only the snapshot count and min*(1-eps) <= q <= max*(1+eps), "
                   "eps = 1.0001e-4, are checked; the sketch's own min()/max() are not compared (sketches-ddsketch 0.3.0 merge ignores "
-                  "non-positive-only sketches when updating min/max). The quantile-label case kind (Quantile::new / parse_quantiles) is differential "
+                  "non-positive-only sketches when updating min/max). Which of quanta's time sources (now / recent) the code reads is decided by "
+                  "evaluation only (real-clock engine), not by theorem. The quantile-label case kind (Quantile::new / parse_quantiles) is differential "
                   "plus per-case spec_ok only: float Display formatting is an oracle input computed by the python side and cross-checked against "
                   "the driver's own rendering; f64::max/min ties (-0.0 vs 0.0) are modelled as observed (the constant operand wins).")
     assumptions = ["u64 counters and nanosecond instants do not overflow",
